@@ -226,6 +226,9 @@ def gen_asset_rows(rng, asset, exchanges, holders, flags, start_year):
             gap += dt.timedelta(microseconds=rng.randint(1, 999999))
         if flags.get("new_year_start") and len(rows) < 4:
             gap = dt.timedelta(minutes=rng.randint(1, 90), seconds=rng.randint(0, 59))
+        if flags.get("tight") and rng.random() < 0.5:
+            # deposits and the withdrawals they fund minutes to hours apart: with mixed offsets their calendar dates can be in either order
+            gap = dt.timedelta(minutes=rng.randint(1, 240), seconds=rng.randint(0, 59))
         if flags.get("micro") and rng.random() < 0.25:
             # distinct instants inside one second / one minute (code that truncates timestamps to a coarser resolution)
             gap = dt.timedelta(microseconds=rng.randint(1, 400000)) if rng.random() < 0.7 else dt.timedelta(seconds=rng.randint(1, 50))
